@@ -148,13 +148,20 @@ class Check:
         if env:
             e.update(env)
         t = time.time()
-        with open(outpath, "w") as out:
-            try:
-                p = subprocess.run(cmd, cwd=self.specdir, env=e, stdout=out,
-                                   stderr=subprocess.STDOUT, timeout=timeout)
-                code = p.returncode
-            except subprocess.TimeoutExpired:
-                code = -9
+        for attempt in (1, 2):
+            with open(outpath, "w") as out:
+                try:
+                    p = subprocess.run(cmd, cwd=self.specdir, env=e, stdout=out,
+                                       stderr=subprocess.STDOUT, timeout=timeout)
+                    code = p.returncode
+                except subprocess.TimeoutExpired:
+                    code = -9
+            # a (rare) TLC-internal concurrency hazard on values shared between workers: run again
+            if code not in (0, -9) and attempt == 1 and "occurs multiple times in record" in tail_file(outpath, 60):
+                log("[tlc] internal exception (record normalisation race), retrying " + module)
+                shutil.rmtree(meta, ignore_errors=True)
+                continue
+            break
         r = TLCResult()
         r.exit = code
         r.stdout_path = outpath
